@@ -1144,6 +1144,19 @@ func (p *apkg) collectOnce() (appends []asite, writes []asite) {
 			}
 			return true
 		})
+		// a field of the method's own receiver is written "recv.<field>" whatever the receiver is called in this method
+		recvName := ""
+		if fn.decl.Recv != nil && len(fn.decl.Recv.List) == 1 && len(fn.decl.Recv.List[0].Names) == 1 {
+			recvName = fn.decl.Recv.List[0].Names[0].Name
+		}
+		siteText := func(e ast.Expr) string {
+			if se, ok := e.(*ast.SelectorExpr); ok && recvName != "" && recvName != "_" {
+				if id, ok := se.X.(*ast.Ident); ok && id.Name == recvName {
+					return "recv." + se.Sel.Name
+				}
+			}
+			return nodeText(p.fset, e)
+		}
 		cls := func(e ast.Expr) aclass {
 			c := p.classify(fn, e).cls
 			if c == clBottom {
@@ -1160,22 +1173,22 @@ func (p *apkg) collectOnce() (appends []asite, writes []asite) {
 				}
 				switch id.Name {
 				case "append":
-					appends = append(appends, asite{file: rel, fn: fn.name, kind: "append", text: nodeText(p.fset, x.Args[0]), ord: ordA, back: back[x], cls: cls(x.Args[0])})
+					appends = append(appends, asite{file: rel, fn: fn.name, kind: "append", text: siteText(x.Args[0]), ord: ordA, back: back[x], cls: cls(x.Args[0])})
 					ordA++
 				case "copy", "delete":
-					writes = append(writes, asite{file: rel, fn: fn.name, kind: id.Name, text: nodeText(p.fset, x.Args[0]), ord: ordW, cls: cls(x.Args[0])})
+					writes = append(writes, asite{file: rel, fn: fn.name, kind: id.Name, text: siteText(x.Args[0]), ord: ordW, cls: cls(x.Args[0])})
 					ordW++
 				}
 			case *ast.AssignStmt:
 				for _, l := range x.Lhs {
 					if ie, ok := l.(*ast.IndexExpr); ok {
-						writes = append(writes, asite{file: rel, fn: fn.name, kind: "index", text: nodeText(p.fset, ie.X), ord: ordW, cls: cls(ie.X)})
+						writes = append(writes, asite{file: rel, fn: fn.name, kind: "index", text: siteText(ie.X), ord: ordW, cls: cls(ie.X)})
 						ordW++
 					}
 				}
 			case *ast.IncDecStmt:
 				if ie, ok := x.X.(*ast.IndexExpr); ok {
-					writes = append(writes, asite{file: rel, fn: fn.name, kind: "index", text: nodeText(p.fset, ie.X), ord: ordW, cls: cls(ie.X)})
+					writes = append(writes, asite{file: rel, fn: fn.name, kind: "index", text: siteText(ie.X), ord: ordW, cls: cls(ie.X)})
 					ordW++
 				}
 			}
